@@ -59,6 +59,7 @@ func checkC13(r *Run) propMeta {
 	checkWrapper(r, p, "threadSafeDuplex", "Duplex", "ThreadSafeDuplex")
 	checkWrapper(r, p, "threadSafeSimplex", "Simplex", "ThreadSafeSimplex")
 	checkValueReceiverWrites(r, p)
+	checkNoPackageState(r, p, "C13-R7-no-package-state", "the ID-set implementation", "an operation that leaves a scratch bitmap dirty (an early return before it is cleared) hands its contents to whichever operation takes it next, on any set", "bitmap32", "bitmap64", "threadSafeDuplex")
 	r.Floor("C13-R6-operand-under-lock", 4)
 	r.Floor("C13-R1-self-iteration", 4)
 	r.Floor("C13-R2-native-op", 16)
